@@ -740,7 +740,7 @@ Proof.
   pose proof (dec_digits v) as F. pose proof (dec_value_dec v) as V. rewrite dec_value_fold in V.
   destruct (dec v) as [|b r] eqn:E; [exfalso; eapply dec_nonempty; eauto|].
   apply Forall_cons_iff in F. destruct F as [Hb Hr]. cbn [scan_digits]. rewrite is_digit_dec, Hb.
-  rewrite scan_digits_all by assumption. cbn [fold_left] in V. rewrite V. reflexivity.
+  rewrite scan_digits_all by assumption. cbn [fold_left] in V. unfold dstep at 2 in V. rewrite V. reflexivity.
 Qed.
 
 Lemma scan_int_sdec z : scan_int (sdec z) = Ok ((z <? 0)%Z, Z.to_N (Z.abs z)).
@@ -798,4 +798,77 @@ Proof.
   - replace (Z.of_N pat - Z.of_N (2 ^ bits))%Z with (Z.of_N pat + (-1) * Z.of_N (2 ^ bits))%Z by lia.
     rewrite Z.mod_add by lia. rewrite Z.mod_small by lia. lia.
   - rewrite Z.mod_small by lia. lia.
+Qed.
+
+(** * grouping is positional: counted from the right (position 0 = last
+    character), every fourth position holds the separator, the others the
+    digits in order *)
+
+Ltac Zify.zify_post_hook ::= Z.div_mod_to_equations.
+Local Close Scope N_scope.
+Local Open Scope nat_scope.
+
+Lemma ins3_nth {A} (sep x : A) : forall l k j,
+    (k <= 3)%nat -> (j < length (ins3 sep k l))%nat ->
+    nth j (ins3 sep k l) x
+    = if Nat.eqb ((j + k) mod 4) 3 then sep else nth (j - (j + k + 1) / 4) l x.
+Proof.
+  induction l as [|d r IH]; intros k j Hk Hj; [cbn in Hj; lia|].
+  cbn [ins3] in *. destruct (Nat.eqb_spec k 3) as [->|Hk3].
+  - destruct j as [|[|j]].
+    + reflexivity.
+    + reflexivity.
+    + cbn [nth length] in *. rewrite IH by lia.
+      replace ((S (S j) + 3) mod 4) with ((j + 1) mod 4) by lia.
+      destruct (Nat.eqb_spec ((j + 1) mod 4) 3) as [E|E]; [reflexivity|].
+      replace (S (S j) - (S (S j) + 3 + 1) / 4)%nat with (S (j - (j + 1 + 1) / 4)) by lia.
+      reflexivity.
+  - destruct j as [|j].
+    + cbn [nth]. replace ((0 + k) mod 4) with k by lia.
+      destruct (Nat.eqb_spec k 3); [lia|]. replace (0 - (0 + k + 1) / 4)%nat with 0%nat by lia. reflexivity.
+    + cbn [nth length] in *. rewrite IH by lia.
+      replace ((S j + k) mod 4) with ((j + S k) mod 4) by (f_equal; lia).
+      destruct (Nat.eqb_spec ((j + S k) mod 4) 3) as [E|E]; [reflexivity|].
+      replace (S j - (S j + k + 1) / 4)%nat with (S (j - (j + S k + 1) / 4)) by lia.
+      reflexivity.
+Qed.
+
+Lemma ins3_length {A} (sep : A) : forall l k, (k <= 3)%nat ->
+    length (ins3 sep k l) = (length l + (length l + k - 1) / 3)%nat.
+Proof.
+  induction l as [|d r IH]; intros k Hk; cbn [ins3 length].
+  - replace ((0 + k - 1) / 3)%nat with 0%nat by lia. reflexivity.
+  - destruct (Nat.eqb_spec k 3) as [->|Hk3]; cbn [length]; rewrite IH by lia; lia.
+Qed.
+
+Lemma group3_length sep ds : length (group3 sep ds) = (length ds + (length ds - 1) / 3)%nat.
+Proof.
+  unfold group3. rewrite rev_length, ins3_length, rev_length by lia. f_equal. f_equal. lia.
+Qed.
+
+Lemma group3_nth sep ds x j : (j < length (group3 sep ds))%nat ->
+  nth j (rev (group3 sep ds)) x = if Nat.eqb (j mod 4) 3 then sep else nth (j - j / 4) (rev ds) x.
+Proof.
+  unfold group3. rewrite rev_length, rev_involutive. intros H.
+  rewrite ins3_nth by lia. rewrite Nat.add_0_r.
+  destruct (Nat.eqb_spec (j mod 4) 3) as [E|E]; [reflexivity|].
+  f_equal. lia.
+Qed.
+
+(** the first character of a grouped text is the first digit (so a separator
+    never follows the sign), the last one is the last digit *)
+Lemma group3_head sep d ds : exists r, group3 sep (d :: ds) = d :: r.
+Proof.
+  pose proof (group3_length sep (d :: ds)) as L. cbn [length] in L.
+  set (n := length ds) in *. set (g := group3 sep (d :: ds)) in *.
+  assert (Hn : (0 < length g)%nat) by lia.
+  assert (Hlt : length g - 1 < length g) by lia.
+  pose proof (group3_nth sep (d :: ds) d (length g - 1) Hlt) as H. fold g in H.
+  assert (Hm : ((length g - 1) mod 4 <> 3)%nat) by lia.
+  destruct (Nat.eqb_spec ((length g - 1) mod 4) 3); [contradiction|].
+  rewrite rev_nth in H by lia. replace (length g - S (length g - 1))%nat with 0%nat in H by lia.
+  rewrite rev_nth in H by (cbn [length]; fold n; lia).
+  cbn [length] in H. fold n in H.
+  replace (S n - S (length g - 1 - (length g - 1) / 4))%nat with 0%nat in H by lia.
+  cbn [nth] in H. destruct g as [|a r]; [cbn in Hn; lia|]. cbn [nth] in H. subst a. eauto.
 Qed.
